@@ -451,6 +451,9 @@ def span_windows(m):
     return [(edges[i], edges[i + 1]) for i in range(len(edges) - 1) if edges[i] < edges[i + 1]]
 
 
+SYMBOLIC_WINDOWS = []  # filled after measurement (DESIGN.md 8.2); empty = anchors only
+
+
 ANCHORS = ["2021-01-25T00:00:00", "2021-01-31T10:00:00", "2020-02-29T00:00:00", "2020-02-28T23:59:59.999", "1999-12-31T12:30:45.500", "1969-12-31T23:59:58.002", "1900-03-01T00:00:00.001", "2199-06-15T18:00:00"]
 
 
@@ -470,8 +473,9 @@ def c16_configs(tier, kind="time-c16", tz="utc"):
         for w in range(nwin):
             for ai, a in enumerate(ANCHORS):
                 out.append(dict(name="%s-m%d-win%02d-anchor%d" % (short, m, w, ai), kind=kind, m=m, win=w, orient=1 if (ai + w) % 2 else -1, anchor=a, tz=tz, weight=2))
-    for m in (10, 5):
-        for w in range(nwin):
+    # both end points fully symbolic (resolution adapted to the window): only the windows measured to finish are registered
+    for m, wins in ((10, SYMBOLIC_WINDOWS),):
+        for w in wins:
             d = dict(name="%s-m%d-win%02d-symbolic" % (short, m, w), kind=kind, m=m, win=w, orient=1, tz=tz, weight=60, shards=16)
             d["res"] = "ms" if w <= 4 else ("s" if w <= 9 else ("min" if w <= 14 else "h"))
             out.append(d)
